@@ -1,10 +1,12 @@
-// L3: constant-time full division (src/uint/div.rs: div_rem, rem, wrapping_div, checked_div, checked_rem) -- C02
+// L3: constant-time full division (src/uint/div.rs: div_rem, rem, wrapping_div) -- C02
+// not covered: checked_div / checked_rem (return subtle::CtOption, a type that is not part of the Verus crate)
 use vstd::prelude::*;
 use vstd::arithmetic::power::*;
 use vstd::arithmetic::power2::*;
 use vstd::arithmetic::div_mod::*;
 use crate::speclib::*;
 use crate::speclib_bits::*;
+use crate::l0_corespec::*;
 use crate::l0_prim::*;
 use crate::l1_choice::*;
 use crate::l1_limb::*;
@@ -13,10 +15,7 @@ use crate::l2_shift::*;
 use crate::l3_divlimb::*;
 verus! {
 
-// core integer method without a vstd specification (assumed, like the ones in speclib.rs)
-pub assume_specification [u32::div_ceil] (a: u32, b: u32) -> (r: u32)
-    requires b != 0
-    ensures r as int == (a as int + b as int - 1) / (b as int);
+// u32::div_ceil (used by div_rem) is specified in l0_corespec.rs (assumed core spec, one per crate)
 
 // ---------------------------------------------------------------------------------------------
 // Private vocabulary and lemmas of the constant-time Knuth division proof (all names ct_*).
